@@ -449,6 +449,14 @@ pub fn run(ctx: &Ctx) -> Outcome {
             }
         }
     }
+    // more chunks in one transfer than the 16-bit count can express (the count wraps; the trace must otherwise be complete)
+    for (ty, vs) in [(8usize, false), (5, true)] {
+        let per_page = refs::padded_len(TYPES[ty].w, TYPES[ty].h).div_ceil(16);
+        for n in [65_535 / per_page, 65_536 / per_page + 1] {
+            let pages = (0..n).map(|_| (TYPES[ty].w, TYPES[ty].h, rand_image(&mut rng, TYPES[ty].w, TYPES[ty].h))).collect();
+            fixed.push(Case { ty, own: 3, op: Op::SendPages, pages, fail_attempts: usize::from(vs), virtual_sign: vs, auto: false, nack: None, prior: None, label: "transfer_around_65536_chunks" });
+        }
+    }
     // the 16-bit offset limit: a 65 536-byte page (last offset 0xFFF0), alone and followed by a small page
     for fail in [0usize, 1] {
         let big = (65_532u32, 8u32, rand_image(&mut rng, 65_532, 8));
@@ -476,6 +484,7 @@ pub fn run(ctx: &Ctx) -> Outcome {
         floor("pages of a size other than the sign's own", report.get("foreign_size_pages") > 0, report.get("foreign_size_pages")),
         floor("unacknowledged requests on attempts 1, 2 and 3", report.get("cases/request_not_acknowledged") == 144 && report.get("unacknowledged_requests_seen") >= 144, report.get("unacknowledged_requests_seen")),
         floor("calls on a Sign object that has been used before (earlier call succeeded / gave up)", report.get("cases/same_sign_object_used_twice") == 770 && report.get("earlier_calls_succeeded") > 0 && report.get("earlier_calls_gave_up") > 0, report.get("earlier_calls_on_the_same_sign_object")),
+        floor("transfers just below and above 65536 chunks", report.get("cases/transfer_around_65536_chunks") == 4 && report.maxs.get("largest_transfer_chunks").copied().unwrap_or(0.0) > 65_536.0, report.maxs.get("largest_transfer_chunks").copied().unwrap_or(0.0)),
         floor("both succeeding and giving-up calls", report.get("calls_succeeded") > 0 && report.get("calls_gave_up") > 0, report.get("calls_gave_up")),
     ];
     Outcome {
